@@ -70,6 +70,7 @@ type c04Seq struct {
 	req    []int // requests of the cycles in the final constant phase
 	curve  int   // curve value of that phase
 	all    int   // number of cycles in total
+	allReq []int // requests of all cycles of the execution (the curve value changes during the history)
 	reason string
 }
 
@@ -116,6 +117,11 @@ func c04Exec(t *testing.T, base *world.Scenario, algo world.AlgoSpec, start int,
 	out := c04Seq{all: len(rec.cycles), reason: res.Reason}
 	if len(rec.cycles) == 0 {
 		return out
+	}
+	for _, c := range rec.cycles {
+		if c.After != nil {
+			out.allReq = append(out.allReq, c.After.Pwm)
+		}
 	}
 	last := rec.cycles[len(rec.cycles)-1]
 	if last.After == nil {
@@ -422,6 +428,17 @@ func runC04(t *testing.T, sc *world.Scenario) *check.Result {
 			}
 			hc.name = hname
 			res.Probe("history-executions:" + hc.name)
+			if ai == 1 {
+				// the rate limit holds between any two consecutive requests, also while the curve value changes
+				res.Probe("rate-limited-executions-with-changing-curve-value")
+				for i := 1; i < len(seq.allReq); i++ {
+					if d := abs(seq.allReq[i] - seq.allReq[i-1]); d > m {
+						res.Violate("C04", "step-bound", "step-bound "+sig+" history="+hc.name, 0, nil,
+							"direct+limit m=%d, min=%d max=%d, history %s: consecutive requests %d → %d (cycles %d, %d) differ by %d", m, lo, hi, hc.name, seq.allReq[i-1], seq.allReq[i], i-1, i, d)
+						break
+					}
+				}
+			}
 			if seq.curve != observedC || len(seq.req) < bound {
 				res.Probe("history-unjudged")
 				continue
